@@ -7,6 +7,7 @@ A resource is its position `p` (names from the root); it *exists* when `Walkable
 `__getitem__` and the next name); its names are *admissible* (`AdmissibleName`: non-empty, no `/`, not `.`/`..`, no
 leading `@@` — the property's own restriction, decidable).  All theorems are for every tree, every position of any
 depth, every admissible name over arbitrary Unicode (`Char` = Unicode scalar value), every start resource.
+Virtual roots are given by the raw `HTTP_X_VHM_ROOT` header bytes and read as the traverser reads them (`headerVroot`).
 Only property theorems and non-vacuity examples live here.
 -/
 namespace Pyr.ResUrl
@@ -169,10 +170,10 @@ example :
 /-- The resource URL is the application URL, plus the resource's path with a trailing slash (`/` alone for the
 root; that path is `resource_path(r)` + `/`), plus the extra elements quoted and joined by `/`. FULL. -/
 theorem resource_url_shape (app : Text) (p els : List Seg) :
-    resourceUrl app p none els = app ++ pathOf p ++ joinWith '/' (els.map quoteSegment) ∧
+    resourceUrl app p none els = .ok (app ++ pathOf p ++ joinWith '/' (els.map quoteSegment)) ∧
       pathOf p = resourcePath p [] ++ (if p = [] then [] else ['/']) ∧
-      resourceUrl app p none els = specUrl app p none els := by
-  have e1 : resourceUrl app p none els = app ++ pathOf p ++ joinWith '/' (els.map quoteSegment) := by
+      resourceUrl app p none els = .ok (specUrl app p none els) := by
+  have e1 : resourceUrl app p none els = .ok (app ++ pathOf p ++ joinWith '/' (els.map quoteSegment)) := by
     simp only [resourceUrl, resourceURL_none, joinElements]
     by_cases h : els = []
     · subst h; simp [joinWith]
@@ -192,105 +193,119 @@ theorem resource_url_shape (app : Text) (p els : List Seg) :
 virtual root) traverses to that very resource with an empty view name, empty subpath, `traversed` = its names. FULL. -/
 theorem url_traverses_back (root : Tree) (app : Text) (p : List Seg) (hadm : ∀ n ∈ p, AdmissibleName n)
     (hw : Walkable root p = true) :
-    resourceUrl app p none [] = app ++ (resourceURL p none).virtualPath ∧
-      requestBack root (resourceURL p none).virtualPath none = .ok (specBack p []) := by
-  refine ⟨by simp [resourceUrl], ?_⟩
-  rw [resourceURL_none]
+    resourceUrl app p none [] = .ok (app ++ pathOf p) ∧
+      requestBack root (pathOf p) none = .ok (specBack p []) := by
+  refine ⟨by simp [resourceUrl, resourceURL_none], ?_⟩
   simp only [pathOf_eq]
   rw [requestBack_slashed, traverser_plain, split_slashed p hadm, (walk_admissible root p hadm).1 hw]
   rfl
 
-/-! ## 4. virtual roots -/
+/-! ## 4. virtual roots
 
-/-- The trimming decision, exactly: for a header whose text is `/h1/…/hn` (n ≥ 1, non-empty slash-free segments) plus
-any number of trailing slashes, the virtual path omits the prefix iff `h1 … hn` is a *whole-segment* prefix of the
-resource's quoted names (never on a mere string prefix — the repaired F-C07a), and then it is the path of the
-remaining names; a header of slashes only (the root) trims nothing.  FULL (any names, any header bytes of that shape);
-note that the comparison is between the *raw* header segments and the *quoted* names. -/
-theorem vroot_trim_iff_segment_prefix (p : List Seg) (hs : List Text) (hdr : Bytes) (k : Nat)
-    (hseg : ∀ s ∈ hs, s ≠ [] ∧ '/' ∉ s) (hhdr : latin1 hdr = '/' :: joinWith '/' hs ++ List.replicate k '/') :
-    (resourceURL p (some hdr)).physicalPath = pathOf p ∧
-    (resourceURL p (some hdr)).virtualPath =
-      if hs ≠ [] ∧ hs.isPrefixOf (p.map quoteSegment) = true
-      then '/' :: slashed ((p.map quoteSegment).drop hs.length) else pathOf p := by
-  refine ⟨by rw [resourceURL_some]; split <;> rfl, ?_⟩
-  by_cases hne : hs = []
-  · subst hne
-    have : latin1 hdr = List.replicate (k + 1) '/' := by rw [hhdr]; simp [joinWith, List.replicate_succ]
-    rw [resourceURL_some, this, rstrip_all_slash]
-    simp
-  · have h1 : EndsNoSlash ('/' :: joinWith '/' hs) := endsNoSlash_append ['/'] _ (endsNoSlash_joinWith hs hne hseg)
-    have hv : rstripSlash (latin1 hdr) = '/' :: joinWith '/' hs := by
-      rw [hhdr]; exact rstrip_endsNoSlash _ k h1
-    rw [virtualPath_trim p hs hdr hne (fun s h => (hseg s h).2) hv]
-    simp [hne]
+The virtual root a header designates is what the traverser reads out of it: `headerVroot hdr` =
+`split_path_info(decode_path_info(hdr))` (C02) — whatever the spelling (no leading slash, `//`, `.`, `..`, trailing
+slashes), whatever the names (raw UTF-8, never percent-quoted). -/
 
-/-- a header `/one//` (bytes) has the shape the theorem asks for, with `hs = ['one']`, `k = 2` -/
-example :
-    let hdr : Bytes := "/one//".toList.map (fun c => UInt8.ofNat c.toNat)
-    (∀ s ∈ ["one".toList], s ≠ [] ∧ '/' ∉ s) ∧ latin1 hdr = '/' :: joinWith '/' ["one".toList] ++ List.replicate 2 '/' := by
-  decide
+/-- Under any virtual-root header that is UTF-8, designating the virtual root `vt`: the URL path omits the
+virtual-root prefix exactly when the resource lies inside the virtual root (`vt` is a prefix of its position — the
+virtual root itself included), and is then the path of the remaining names; otherwise it is the full path; the
+physical path is never affected; the URL is the application URL + that path + the quoted elements.  FULL: every
+position, every header, every name (names that need quoting, siblings sharing a name prefix, … — the repaired
+F-C07a and F-C07b). -/
+theorem vroot_trim_iff_inside (p : List Seg) (hdr : Bytes) (vt : List Seg) (hv : headerVroot hdr = some vt) :
+    ∃ u, resourceURL p (some hdr) = .ok u ∧ u.physicalPath = pathOf p ∧
+      u.virtualPath = (if inside vt p = true then pathOf (p.drop vt.length) else pathOf p) ∧
+      u.virtualPath = specVirtualPath p (some vt) ∧
+      ∀ app els, resourceUrl app p (some hdr) els = .ok (specUrl app p (some vt) els) := by
+  simp only [headerVroot] at hv
+  cases hd : decodePathInfo hdr with
+  | none => simp [hd] at hv
+  | some V =>
+    have s1 : splitPathInfo V = vt := by simpa [hd] using hv
+    obtain ⟨u, hu, h1, _, h3, _⟩ := resourceURL_vroot p hdr V hd
+    rw [s1] at h3
+    refine ⟨u, hu, h1, h3, h3, ?_⟩
+    intro app els
+    simp only [resourceUrl, hu, h3, specUrl, joinElements]
+    by_cases h : els = []
+    · subst h; simp [joinWith]
+    · simp [h]
 
-/-- the old witness of F-C07a: virtual root `/one`, resource `/one2/x` — not trimmed -/
-example : (resourceURL ["one2".toList, "x".toList] (some ("/one".toList.map (fun c => UInt8.ofNat c.toNat)))).virtualPath
-    = "/one2/x/".toList := by decide +kernel
+/-- A header that is not UTF-8 designates nothing: `ResourceURL` raises `UnicodeDecodeError` (as the traverser
+does for the same request, C02). FULL. -/
+theorem vroot_header_undecodable (p : List Seg) (hdr : Bytes) (h : headerVroot hdr = none) :
+    resourceURL p (some hdr) = .error .unicodeDecode ∧ ∀ app els, resourceUrl app p (some hdr) els = .error .unicodeDecode := by
+  have hd : decodePathInfo hdr = none := by
+    cases hd : decodePathInfo hdr with
+    | none => rfl
+    | some v => simp [headerVroot, hd] at h
+  have := resourceURL_undecodable p hdr hd
+  exact ⟨this, fun app els => by simp [resourceUrl, this]⟩
 
-/-- Under a virtual root given by its canonical header (`/` + names joined by `/`, UTF-8, trailing slashes allowed)
-the traverser reads the header as that virtual root, and the URL path omits the virtual-root prefix exactly when the
-resource lies inside the virtual root (`specVirtualPath`).  PARTIAL: requires that the virtual root's names need no
-percent-quoting; otherwise the raw header is compared with the quoted physical path (F-C07b,
-`vroot_quoting_counterexample`). -/
-theorem vroot_trim_iff_inside_partial (p vt : List Seg) (k : Nat) (hadm : ∀ n ∈ vt, AdmissibleName n)
-    (hnq : ∀ n ∈ vt, NoQuoteNeeded n) :
-    headerVroot (vrootHeader vt k) = some vt ∧
-    (resourceURL p (some (vrootHeader vt k))).virtualPath = specVirtualPath p (some vt) ∧
-    (specVirtualPath p (some vt) = if inside vt p = true then pathOf (p.drop vt.length) else pathOf p) := by
-  refine ⟨?_, virtualPath_canonical p vt k hadm hnq, rfl⟩
+/-- Which virtual root a header designates: the canonical header of `vt` (`/` + names joined by `/`, UTF-8 — any
+Unicode names — plus any number of trailing slashes) designates `vt`; an ASCII header text designates its
+normalised segments. FULL. -/
+theorem vroot_header_designates :
+    (∀ (vt : List Seg) (k : Nat), (∀ n ∈ vt, AdmissibleName n) → headerVroot (vrootHeader vt k) = some vt) ∧
+    (∀ t : Text, (∀ c ∈ t, c.toNat < 128) → headerVroot (enc t) = some (splitPathInfo t)) := by
+  refine ⟨?_, headerVroot_ascii⟩
+  intro vt k hadm
   simp only [headerVroot, decode_vrootHeader, Option.map_some]
   rw [(split_header_path vt [] k hadm (by simp)).1]
 
-example : (∀ n ∈ ["one".toList, "~a.b-c_(1)".toList], AdmissibleName n ∧ NoQuoteNeeded n) := by decide
-example : ¬ NoQuoteNeeded "a b".toList ∧ ¬ NoQuoteNeeded "%41".toList ∧ ¬ NoQuoteNeeded "é".toList := by decide
+example : (∀ n ∈ ["a b".toList, "La Peña".toList], AdmissibleName n) := by decide
+example : (∀ c ∈ "one//./x/../".toList, c.toNat < 128) ∧ splitPathInfo "one//./x/../".toList = ["one".toList] := by decide
 
-/-- F-C07b at two concrete points.  (1) virtual root `/a b`, resource `/a b/c` (inside): the URL path stays
-`/a%20b/c/` instead of `/c/`.  (2) virtual root `/%2541` (some other resource), resource `/%41/x` (not inside): the
-prefix is trimmed, `/x/`, although the property demands `/%2541/x/`. -/
-theorem vroot_quoting_counterexample :
-    (let p := ["a b".toList, "c".toList]; let vt := ["a b".toList]
-     inside vt p = true ∧ (resourceURL p (some (vrootHeader vt 0))).virtualPath = "/a%20b/c/".toList ∧
-       specVirtualPath p (some vt) = "/c/".toList) ∧
-    (let p := ["%41".toList, "x".toList]; let vt := ["%2541".toList]
-     inside vt p = false ∧ (resourceURL p (some (vrootHeader vt 0))).virtualPath = "/x/".toList ∧
-       specVirtualPath p (some vt) = "/%2541/x/".toList) := by
-  decide +kernel
+/-- The old witnesses, now regression cases: F-C07a (`/one` over `/one2/x`: not trimmed), F-C07b (`/a b` over
+`/a b/c`: trimmed to `/c/`; `/%2541` over `/%41/x`: not trimmed), and a non-canonical spelling (`one//./x/../` over
+`/one/y`: trimmed to `/y/`). -/
+theorem vroot_regressions :
+    (∃ u, resourceURL ["one2".toList, "x".toList] (some (vrootHeader ["one".toList] 0)) = .ok u ∧ u.virtualPath = "/one2/x/".toList) ∧
+    (∃ u, resourceURL ["a b".toList, "c".toList] (some (vrootHeader ["a b".toList] 0)) = .ok u ∧ u.virtualPath = "/c/".toList) ∧
+    (∃ u, resourceURL ["%41".toList, "x".toList] (some (vrootHeader ["%2541".toList] 0)) = .ok u ∧ u.virtualPath = "/%2541/x/".toList) ∧
+    (∃ u, resourceURL ["one".toList, "y".toList] (some (enc "one//./x/../".toList)) = .ok u ∧ u.virtualPath = "/y/".toList) := by
+  refine ⟨?_, ?_, ?_, ?_⟩
+  · obtain ⟨u, h1, _, _, h4, _⟩ := vroot_trim_iff_inside ["one2".toList, "x".toList] _ _
+      (vroot_header_designates.1 ["one".toList] 0 (by decide))
+    exact ⟨u, h1, by rw [h4]; decide +kernel⟩
+  · obtain ⟨u, h1, _, _, h4, _⟩ := vroot_trim_iff_inside ["a b".toList, "c".toList] _ _
+      (vroot_header_designates.1 ["a b".toList] 0 (by decide))
+    exact ⟨u, h1, by rw [h4]; decide +kernel⟩
+  · obtain ⟨u, h1, _, _, h4, _⟩ := vroot_trim_iff_inside ["%41".toList, "x".toList] _ _
+      (vroot_header_designates.1 ["%2541".toList] 0 (by decide))
+    exact ⟨u, h1, by rw [h4]; decide +kernel⟩
+  · have hh := vroot_header_designates.2 "one//./x/../".toList (by decide)
+    have hs : splitPathInfo "one//./x/../".toList = ["one".toList] := by decide
+    rw [hs] at hh
+    obtain ⟨u, h1, _, _, h4, _⟩ := vroot_trim_iff_inside ["one".toList, "y".toList] _ _ hh
+    exact ⟨u, h1, by rw [h4]; decide +kernel⟩
 
 /-- For a resource inside the virtual root, the generated URL's path requested with the same virtual-root header
-traverses back to that resource: empty view name, empty subpath, virtual root = the header's.  PARTIAL: same
-restriction as above (names of the virtual root need no quoting, F-C07b). -/
-theorem vroot_url_traverses_back_partial (root : Tree) (p vt : List Seg) (k : Nat)
-    (hp : ∀ n ∈ p, AdmissibleName n) (hnq : ∀ n ∈ vt, NoQuoteNeeded n) (hin : inside vt p = true)
-    (hw : Walkable root p = true) :
-    requestBack root (resourceURL p (some (vrootHeader vt k))).virtualPath (some (vrootHeader vt k)) =
-      .ok (specBack p vt) := by
+traverses back to that resource: empty view name, empty subpath, `traversed` = its names, virtual root = the
+header's.  FULL: any UTF-8 header (any spelling), any admissible names. -/
+theorem vroot_url_traverses_back (root : Tree) (p vt : List Seg) (hdr : Bytes) (hv : headerVroot hdr = some vt)
+    (hp : ∀ n ∈ p, AdmissibleName n) (hin : inside vt p = true) (hw : Walkable root p = true) :
+    ∃ u, resourceURL p (some hdr) = .ok u ∧ requestBack root u.virtualPath (some hdr) = .ok (specBack p vt) := by
+  obtain ⟨u, hu, _, h3, _, _⟩ := vroot_trim_iff_inside p hdr vt hv
+  refine ⟨u, hu, ?_⟩
   obtain ⟨rest, hr⟩ := List.isPrefixOf_iff_prefix.mp hin
-  have hv : ∀ n ∈ vt, AdmissibleName n := fun n hn => hp n (by rw [← hr]; simp [hn])
   have hrest : ∀ n ∈ rest, AdmissibleName n := fun n hn => hp n (by rw [← hr]; simp [hn])
-  rw [virtualPath_canonical p vt k hv hnq]
-  simp only [specVirtualPath, hin, if_true, pathOf_eq]
   have hd : p.drop vt.length = rest := by rw [← hr]; simp
-  rw [hd, requestBack_slashed, traverser_vroot root vt rest k hv hrest (by rw [hr]; exact hw), hr]
+  rw [h3]
+  simp only [hin, if_true, hd, pathOf_eq]
+  rw [requestBack_slashed, traverser_vroot root hdr vt rest hv hrest (by rw [hr]; exact hw), hr]
 
 example :
-    let root : Tree := .mk true [("one".toList, .mk true [("La Peña".toList, .mk false [])]), ("one2".toList, .mk true [])]
-    let p := ["one".toList, "La Peña".toList]
-    (∀ n ∈ p, AdmissibleName n) ∧ (∀ n ∈ ["one".toList], NoQuoteNeeded n) ∧ inside ["one".toList] p = true ∧
-      Walkable root p = true := by decide
+    let root : Tree := .mk true [("a b".toList, .mk true [("La Peña".toList, .mk false [])]), ("a".toList, .mk true [])]
+    let p := ["a b".toList, "La Peña".toList]
+    (∀ n ∈ p, AdmissibleName n) ∧ inside ["a b".toList] p = true ∧ Walkable root p = true ∧
+      (∀ n ∈ ["a b".toList], AdmissibleName n) := by decide
 
-/-- `virtual_root(resource, request)` inverts the trimming: under a canonical header it returns the virtual root
-when the resource lies inside it and the physical root otherwise.  PARTIAL: same restriction (F-C07b). -/
-theorem virtual_root_inverts_trim_partial (root : Tree) (p vt : List Seg) (k : Nat) (hp : ∀ n ∈ p, AdmissibleName n)
-    (hadm : ∀ n ∈ vt, AdmissibleName n) (hnq : ∀ n ∈ vt, NoQuoteNeeded n) (hw : Walkable root p = true) :
-    virtualRoot root p (some (vrootHeader vt k)) = .ok (if inside vt p = true then vt else []) :=
-  virtualRoot_canonical root p vt k hp hadm hnq hw
+/-- `virtual_root(resource, request)` inverts the trimming: it returns the virtual root the header designates when
+the resource lies inside it and the physical root otherwise.  FULL. -/
+theorem virtual_root_inverts_trim (root : Tree) (p vt : List Seg) (hdr : Bytes) (hv : headerVroot hdr = some vt)
+    (hp : ∀ n ∈ p, AdmissibleName n) (hw : Walkable root p = true) :
+    virtualRoot root p (some hdr) = .ok (if inside vt p = true then vt else []) :=
+  virtualRoot_vroot root p vt hdr hv hp hw
 
 end Pyr.ResUrl
